@@ -188,6 +188,11 @@ def fam_lifecycle():
     out.append({"threads": {"app1": [["schedule", 1, 1], ["stop"], ["start"], ["stop"], ["join"]]}, "emit": {"1": [1]}})
     out.append({"threads": {"app1": [["start"], ["schedule", 1, 1], ["unschedule", 1], ["schedule", 1, 1], ["stop"], ["stop"],
                                      ["join"]]}, "emit": {"1": [1]}})
+    # an emitter that needs longer than any time-out to notice stop(): stop() / unschedule() wait for it all the same
+    out.append({"threads": {"app1": [["schedule", 1, 1], ["schedule", 2, 2], ["start"], ["await"], ["stop"], ["join"]]},
+                "emit": {"1": [1], "2": [1]}, "slow": {"1": 7}})
+    out.append({"threads": {"app1": [["schedule", 1, 1], ["start"], ["await"], ["unschedule", 1], ["stop"], ["join"]]},
+                "emit": {"1": [1]}, "slow": {"1": 7}})
     # start() twice: the second call raises; the observer keeps running with its emitters
     out.append({"threads": {"app1": [["schedule", 1, 1], ["start"], ["start"], ["probe"], ["stop"], ["join"]]}, "emit": {"1": [1, 2]}})
     out.append({"threads": {"app1": [["schedule", 1, 1], ["schedule", 2, 2], ["start"], ["probe"], ["stop"], ["join"]],
